@@ -109,6 +109,34 @@ func caseFromJSON(j caseJSON) (Case, error) {
 	return c, nil
 }
 
+// corpusCases loads corpus/<id>/*.json ({"from": seed id, "case": caseJSON}).
+func corpusCases(id string) []Case {
+	files, _ := filepath.Glob(filepath.Join(verifDir(), "corpus", id, "*.json"))
+	sort.Strings(files)
+	var out []Case
+	for _, f := range files {
+		b, err := os.ReadFile(f)
+		if err != nil {
+			continue
+		}
+		var e struct {
+			From string   `json:"from"`
+			Case caseJSON `json:"case"`
+		}
+		if json.Unmarshal(b, &e) != nil {
+			continue
+		}
+		c, err := caseFromJSON(e.Case)
+		if err != nil {
+			continue
+		}
+		c.Kind = "corpus"
+		c.Note = "caught " + e.From
+		out = append(out, c)
+	}
+	return out
+}
+
 func (c Case) hash() string {
 	h := sha256.New()
 	for _, o := range c.Ops {
@@ -161,8 +189,10 @@ func runCase(p *Pair, env *Env, c Case) caseOutcome {
 			op = Op{op.Name, args}
 		}
 		switch op.Name {
-		case "cli.generate", "cli.update":
+		case "cli.generate", "cli.update", "cli.compare":
 			prewarmJoins(p, env, op.Args[0:6], op.Args[7:])
+		case "cli.compareAll":
+			prewarmJoins(p, env, op.Args[1:7], op.Args[7:])
 		case "cli.updateAll":
 			prewarmJoins(p, env, op.Args[0:6], op.Args[6:])
 		}
@@ -308,6 +338,9 @@ func runProperty(pr *Property, env *Env, tier string, seed int64, lean leanResul
 		if pr.Corpus != nil {
 			cases = append(cases, pr.Corpus(env)...)
 		}
+		// the inputs that caught the seeded changes (corpus/<id>/, written by tools/mkcorpus.py from the stored replays):
+		// they run first on every run, whatever the generators produce this time
+		cases = append(cases, corpusCases(pr.ID)...)
 		cases = append(cases, pr.Gen(rng, tier, env)...)
 		cases = append(cases, patternWatchCases(pr, rng, tier)...)
 	}
